@@ -50,6 +50,8 @@ pub enum Mut {
     FuncRetType(usize, usize, usize),
     FuncDelParam(usize, usize),
     FuncDelRet(usize, usize),
+    /// function f: append type t to the declared return types
+    FuncAddRet(usize, usize),
     FuncDupParamId(usize, usize),
     DelFunc(usize),
     DupFunc(usize),
@@ -221,6 +223,9 @@ pub fn enumerate(p: &Program, thin: usize) -> Vec<Mut> {
             for t in (0..nt).step_by(thin) {
                 out.push(Mut::FuncParamType(f, a, t));
             }
+        }
+        for t in (0..nt).step_by(thin) {
+            out.push(Mut::FuncAddRet(f, t));
         }
         for r in 0..func.signature.ret_types.len() {
             out.push(Mut::FuncDelRet(f, r));
@@ -522,6 +527,11 @@ pub fn apply(p: &Program, m: &Mut) -> Program {
                 }
             }
         }
+        Mut::FuncAddRet(f, t) => {
+            if let (Some(func), Some(td)) = (q.funcs.get_mut(*f), p.type_declarations.get(*t)) {
+                func.signature.ret_types.push(td.id.clone());
+            }
+        }
         Mut::FuncDelRet(f, r) => {
             if let Some(func) = q.funcs.get_mut(*f) {
                 if *r < func.signature.ret_types.len() {
@@ -606,6 +616,7 @@ pub fn from_json(v: &Value) -> Option<Mut> {
         "FuncRetType" => Mut::FuncRetType(u(0), u(1), u(2)),
         "FuncDelParam" => Mut::FuncDelParam(u(0), u(1)),
         "FuncDelRet" => Mut::FuncDelRet(u(0), u(1)),
+        "FuncAddRet" => Mut::FuncAddRet(u(0), u(1)),
         "FuncDupParamId" => Mut::FuncDupParamId(u(0), u(1)),
         "DelFunc" => Mut::DelFunc(u(0)),
         "DupFunc" => Mut::DupFunc(u(0)),
